@@ -99,6 +99,7 @@ func directed() []*Run {
 		add(ReqKind{Method: "POST", Framing: "chunked", Ct: "binary", Enc: "gzip", Trailers: true}, // trailers both ways
 			ResKind{Framing: "chunked", Ct: "text", Enc: "unknown", Trailers: true}, false, true)
 		add(get, ResKind{Framing: "cl", Ct: "text", Enc: "gzip", Redirect: true}, false, false)
+		add(post("cl", "formbad"), res("chunked", "text", "zlib"), false, false) // not a form after all; RFC-style deflate
 		runs = append(runs, r)
 	}
 	return runs
@@ -414,7 +415,7 @@ func Check(c *core.Ctx, id string) {
 		false,
 		"equality of bytes, header lists and JSON round trips is decided by the harness, not by TLC (the specification decides who records what and in which form)",
 		"the Trailer announcement header is not compared (net/http moves it out of the header map)",
-		"form bodies are well-formed; deflate means raw deflate as martian decodes it")
+		"deflate-labelled bodies are sent both as raw deflate data and zlib-wrapped")
 	type mrun struct{ name, cfg, want string }
 	runs := []mrun{
 		{"log_ref", mcCfg("{1, 2}", "SmallCfgs", "SmallReq", "SmallRes", false, false, false), ""},
@@ -423,7 +424,10 @@ func Check(c *core.Ctx, id string) {
 		{"log_dev_chunks", mcCfg("{1}", "SmallCfgs", "SmallReq", "SmallRes", false, false, true), "PostDataIsBody"},
 	}
 	if c.Thorough() {
-		runs = append(runs, mrun{"log_ref_full", mcCfg("{1}", "FullCfgs", "FullReq", "FullRes", false, false, false), ""})
+		// the full product of configurations and attributes does not finish in half an hour:
+		// all attributes under the small configuration family, all configurations under the small attribute families
+		runs = append(runs, mrun{"log_ref_allmsgs", mcCfg("{1}", "SmallCfgs", "FullReq", "FullRes", false, false, false), ""},
+			mrun{"log_ref_allcfgs", mcCfg("{1}", "FullCfgs", "SmallReq", "SmallRes", false, false, false), ""})
 	}
 	for _, r := range runs {
 		os.WriteFile(filepath.Join(c.Work, r.name+".cfg"), []byte(r.cfg), 0o644)
